@@ -279,6 +279,24 @@ func (f *sessionFam) finish(w *World, res *Result) {
 	for _, o := range sessionOracles {
 		res.Viol = append(res.Viol, o(f, w, res)...)
 	}
+	// C08's last clause - across the switch no application message is lost, duplicated or reordered in either
+	// direction - is what the C01/C02 oracles decide: their verdicts on sessions that did switch count for C08 too
+	var more []Violation
+	for _, v := range res.Viol {
+		if v.Prop != "C01" && v.Prop != "C02" {
+			continue
+		}
+		i := strings.Index(v.Msg, " [")
+		if i <= 0 {
+			continue
+		}
+		a := v.Msg[:i]
+		if len(w.evs(a, "upgrade")) == 0 {
+			continue
+		}
+		more = append(more, Violation{Prop: "C08", Rule: "no-loss-across-switch", Sig: "no-loss-across-switch/" + v.Prop + "/" + v.Sig, Msg: v.Msg})
+	}
+	res.Viol = append(res.Viol, more...)
 }
 
 // sessionOracles is extended by the other oracle files.
